@@ -145,6 +145,7 @@ func runC07(c *Ctx) {
 	r.Doc("E6", "err channel: written only under err != nil, value originates in the divider check (or is forwarded from the inner discipline)", 3)
 	r.Doc("E7", "v1 Simple: handlers joined (wg.Wait) after cancel and before any signal; wg.Add before go; wg.Done deferred first", 3)
 	r.Doc("E8", "(= B9, B11) actual changes only by +1 per send, -1 per received release, delete at zero", 8)
+	r.Doc("E10", "the scheduler's idle pause is a small constant (closed inputs are observed, and termination signalled, promptly)", 2)
 	r.Doc("E9", "the error channel never delays termination: made with capacity >= 1 and written at most once per goroutine (reading Err() is optional)", 3)
 	for _, p := range []*Prog{c.V1, c.V2} {
 		sr, err := resolveSchedRoles(p)
@@ -162,6 +163,7 @@ func runC07(c *Ctx) {
 		c07forall(c, sr, sr.allZero, "zero")
 		c07waitZero(c, sr)
 		c07errChannel(c, p)
+		checkConstantIdleSleep(c, sr, "E10")
 		// E8: `actual` is only changed by +1 on a successful send, -1 per received release and (v1)
 		// deletion at zero - otherwise termination is signalled with items unreleased
 		if pr, err := resolvePrio(p); err == nil {
